@@ -75,11 +75,12 @@ package wallet
 //@   tags C19
 //@   requires w != nil && w.db != nil && w.mints != nil && winv()
 //@   ensures @past [C19] winv()
+//@   ensures @samecounters [C19] forall id Str :: wdb.counter[id] == old(wdb.counter)[id]
 //@   ensures @nonnil [C19] err == nil ==> result != nil
 // A-KEYSET (assumed): keyset ids are 8 bytes (NUT-02) and the keys of a stored keyset parsed
 //@   assumes err == nil ==> (hexok(result.Id) ==> len(result.Id) == 16) && (forall a :: (a in result.PublicKeys) ==> result.PublicKeys[a] != nil)
-//@   loop 1 invariant winv()
-//@   loop 2 invariant winv()
+//@   loop 1 invariant winv() && (forall id Str :: wdb.counter[id] == old(wdb.counter)[id])
+//@   loop 2 invariant winv() && (forall id Str :: wdb.counter[id] == old(wdb.counter)[id])
 
 // reading the stored counter starts a derivation at it (ghost effect, assumed)
 //@ func (*Wallet).counterForKeyset
@@ -104,12 +105,16 @@ package wallet
 //@   requires w != nil && mint != nil && w.db != nil && w.mints != nil && winv()
 //@   calls (*Wallet).createBlindedMessages asserts @fresh [C19] counter == nil || *counter >= wal.signedupto[keysetId]
 //@   ensures @past [C19] err == nil ==> winv()
+// ... and no further: a stored counter is either untouched or exactly the end of the range just derived
+// (gaps would eat into the 300-counter gap limit of Restore)
+//@   ensures @nogap [C19] err == nil ==> (forall id Str :: wdb.counter[id] == old(wdb.counter)[id] || wdb.counter[id] == wal.derivedupto[id])
 
 //@ func (*Wallet).MintTokens
 //@   tags C19
 //@   requires w != nil && w.db != nil && w.mints != nil && winv()
 //@   calls (*Wallet).createBlindedMessages asserts @fresh [C19] counter == nil || *counter >= wal.signedupto[keysetId]
 //@   ensures @past [C19] r1 == nil ==> winv()
+//@   ensures @nogap [C19] r1 == nil ==> (forall id Str :: wdb.counter[id] == old(wdb.counter)[id] || wdb.counter[id] == wal.derivedupto[id])
 
 // Restore: whenever the scan position is saved, the stored counter becomes
 // exactly the scan position (counter of the first output not yet looked at).
